@@ -15,6 +15,7 @@ L=/tmp/vlanes; rm -rf $L; mkdir -p $L
 cd /verif
 jobs=$L/jobs.txt; : > $jobs
 for d in seeded/*/; do id=$(basename $d); prop=${id%%[-_]*}
+  [ -f $d/obsolete.txt ] && continue  # no longer property-breaking on the current tree (see the file)
   p=$d/patch.diff; [ -f $d/patch_adapted.diff ] && p=$d/patch_adapted.diff
   echo "seed $id /verif/$p $prop $(cat $d/extra_checks.txt 2>/dev/null | tr '\n' ' ')" >> $jobs; done
 for f in mutants/*.diff; do echo "mutant $(basename $f) /verif/$f $(grep -m1 '^# checks:' $f | sed 's/# checks://')" >> $jobs; done
